@@ -41,10 +41,17 @@ def scenario(rng):
     coro = rng.choice([0.0, 0.0, 0.4, 1.0])
     scn = gen.rand_engine_scenario(
         rng, nested=0.0, fail=0.0, dense=rng.choice([0.3, 0.7, 1.0]), guards=False, validators=False,
-        coro=coro, yields=2, nsends=rng.randint(2, 8), unknown=(), events=EVS,
+        coro=coro, yields=2, nsends=rng.randint(2, 8), unknown=(), events=EVS, evcb_p=rng.choice([0.0, 0.3]),
         provs=rng.choice([["sm"], ["sm", "model"], ["sm", "model", "l1"], ["sm", "l1", "l2"]]))
     d = scn["classes"][0]
     one_candidate(d)
+    # event-actions must still name a declared event of higher rank (events may have been renamed above)
+    order = d["evlist"]
+    d["cbs"] = [cb for cb in d["cbs"] if not cb.get("evcb") or (
+        cb["evcb"] in order and all(e in order and order.index(cb["evcb"]) > order.index(e) for e in d["trans"][cb["tix"] - 1]["evs"]))]
+    if any(cb.get("evcb") for cb in d["cbs"]):
+        scn["steps"][0]["opt"]["rtc"] = True
+        scn["steps"][0]["opt"]["allow"] = True
     for st in scn["steps"][1:]:
         st["ev"] = rng.choice(d["evlist"])
     if any(cb["coro"] for cb in d["cbs"]):
